@@ -2,12 +2,61 @@
 from __future__ import annotations
 from .common import st
 
+# SPELL = random.Random: spell every token in a random one of the ways Spelling.tla / the CSS syntax allow (escapes, quote style, line
+# continuations, ASCII case of keywords, white space and comments in the optional slots); None = canonical spelling
+SPELL = None
+
+
+def _hexesc(c, nxt):
+    """hex escape of c; nxt = the character that follows in the output, None = unknown (end of an identifier: white space may follow,
+    and one white space character after a hex escape belongs to the escape)"""
+    o = ord(c)
+    k = SPELL.randrange(4)
+    if nxt is None:
+        return ['\\%06x ', '\\%x ', '\\%X\t', '\\%x\n'][k] % o
+    ws_next = nxt in ' \t\r\n\f'
+    if k == 0:      # six digits need no terminator, but a following white space character would be swallowed as one
+        return '\\%06x' % o + (' ' if ws_next else '')
+    if k == 1:
+        return '\\%x ' % o
+    if k == 2:
+        return '\\%X\t' % o
+    # no terminator: only when the next character can neither continue the escape nor be taken for its terminator
+    if nxt in '0123456789abcdefABCDEF' or ws_next:
+        return '\\%x ' % o
+    return '\\%x' % o
+
+
+def kw(name):
+    """a keyword (pseudo-class name without the colon, 'of', case flag): ASCII case is free"""
+    if SPELL is None:
+        return name
+    return ''.join(c.upper() if SPELL.random() < 0.3 else c for c in name)
+
+
+def ows():
+    if SPELL is None:
+        return ''
+    return SPELL.choice(['', '', '', ' ', '\t', '\n', '/**/', ' /* c */ ', '\r\n', '\f'])
+
+
+def rws():
+    if SPELL is None:
+        return ' '
+    return SPELL.choice([' ', ' ', '\n', ' /**/ ', '/* c */ ', '\t\t', ' /**/'])
+
 
 def ident(s):
     """Serialize an identifier (own implementation; independent of soupsieve.escape)."""
     out = []
     for i, c in enumerate(s):
         o = ord(c)
+        if SPELL is not None and o != 0 and SPELL.random() < 0.15:
+            if SPELL.random() < 0.5 and c not in '0123456789abcdefABCDEF\n\r\f':
+                out.append('\\' + c)
+            else:
+                out.append(_hexesc(c, s[i + 1] if i + 1 < len(s) else None))
+            continue
         if o == 0:
             out.append('�')
         elif o < 0x20 or o == 0x7f:
@@ -26,14 +75,26 @@ def ident(s):
 
 
 def string(s, q='"'):
+    if SPELL is not None:
+        q = SPELL.choice('"\'')
     out = [q]
-    for c in s:
+    for i, c in enumerate(s):
+        if SPELL is not None and SPELL.random() < 0.12:
+            out.append(SPELL.choice(['\\\n', '\\\r\n', '\\\f', '\\\r']))          # line continuation: contributes nothing
+        if SPELL is not None and ord(c) != 0 and SPELL.random() < 0.12:
+            if SPELL.random() < 0.5 and c not in '0123456789abcdefABCDEF\n\r\f':
+                out.append('\\' + c)
+            else:
+                out.append(_hexesc(c, s[i + 1] if i + 1 < len(s) else q))
+            continue
         if c == q or c == '\\':
             out.append('\\' + c)
         elif c in '\n\r\f' or ord(c) == 0:
             out.append('\\%x ' % ord(c))
         else:
             out.append(c)
+    if SPELL is not None and SPELL.random() < 0.15:
+        out.append(SPELL.choice(['\\\n', '\\\r\n', '\\\f']))
     out.append(q)
     return ''.join(out)
 
@@ -63,6 +124,10 @@ def nth_text(a, b):
     return s
 
 
+def _unquoted_ok(v):
+    return v != '' and all(c.isascii() and (c.isalpha() or c == '_') for c in v)
+
+
 def simple(s):
     k = s['k']
     if k == 'type':
@@ -73,37 +138,38 @@ def simple(s):
     if k == 'class':
         return '.' + ident(st(s['v']))
     if k == 'attr':
-        t = '[' + nsspec(s['ns']) + ident(st(s['name']))
+        t = '[' + ows() + nsspec(s['ns']) + ident(st(s['name']))
         if s['op'] != 'ex':
-            t += OPS[s['op']] + string(st(s['val']))
+            v = st(s['val'])
+            t += ows() + OPS[s['op']] + ows() + (ident(v) if SPELL is not None and _unquoted_ok(v) and SPELL.random() < 0.3 else string(v))
             if s['flag'] != 'n':
-                t += ' ' + s['flag']
-        return t + ']'
+                t += (' ' if SPELL is None else SPELL.choice([' ', '\t', '/**/ ', ' /**/', '\n'])) + kw(s['flag'])
+        return t + ows() + ']'
     if k in ('not', 'is', 'where', 'matches'):
-        return ':' + k + '(' + ', '.join(complex_(c) for c in s['args']) + ')'
+        return ':' + kw(k) + '(' + ows() + (ows() + ',' + (' ' if SPELL is None else ows())).join(complex_(c) for c in s['args']) + ows() + ')'
     if k == 'has':
-        return ':has(' + ', '.join(((a['comb'].strip() + ' ') if a['comb'] != ' ' else '') + complex_(a['cx'])
-                                   for a in s['args']) + ')'
+        return ':' + kw('has') + '(' + ows() + (ows() + ',' + (' ' if SPELL is None else ows())).join(
+            ((a['comb'].strip() + (' ' if SPELL is None else ows())) if a['comb'] != ' ' else '') + complex_(a['cx']) for a in s['args']) + ows() + ')'
     if k == 'nth':
-        name = ':nth-' + ('last-' if s['last'] else '') + ('of-type' if s['oftype'] else 'child')
-        t = name + '(' + (st(s['raw']) if s.get('raw') else nth_text(s['a'], s['b']))
+        name = ':' + kw('nth-' + ('last-' if s['last'] else '') + ('of-type' if s['oftype'] else 'child'))
+        t = name + '(' + ows() + (st(s['raw']) if s.get('raw') else nth_text(s['a'], s['b']))
         if s['of']:
-            t += ' of ' + ', '.join(complex_(c) for c in s['of'])
-        return t + ')'
+            t += rws() + kw('of') + rws() + (ows() + ',' + (' ' if SPELL is None else ows())).join(complex_(c) for c in s['of'])
+        return t + ows() + ')'
     if k == 'none':
-        return ':hover'
+        return ':' + kw('hover')
     if k == 'amp':
         return '&'
     if k == 'custom':
         return ':' + ident(st(s['name']))
     if k == 'lang':
-        return ':lang(' + ', '.join(string(st(r)) for r in s['ranges']) + ')'
+        return ':' + kw('lang') + '(' + ows() + (ows() + ',' + (' ' if SPELL is None else ows())).join(string(st(r)) for r in s['ranges']) + ows() + ')'
     if k == 'contains':
-        return (':-soup-contains-own(' if s['own'] else ':-soup-contains(') + \
-            ', '.join(string(st(r)) for r in s['vals']) + ')'
+        return ':' + kw('-soup-contains-own' if s['own'] else '-soup-contains') + '(' + ows() + \
+            (ows() + ',' + (' ' if SPELL is None else ows())).join(string(st(r)) for r in s['vals']) + ows() + ')'
     if k == 'dir':
-        return ':dir(%s)' % s['d']
-    return ':' + k
+        return ':' + kw('dir') + '(' + ows() + kw(s['d']) + ows() + ')'
+    return ':' + kw(k)
 
 
 def compound(c):
@@ -117,9 +183,14 @@ def compound(c):
 def complex_(cx):
     out = compound(cx['cs'][0])
     for comb, c in zip(cx['cb'], cx['cs'][1:]):
-        out += (' ' if comb == ' ' else ' %s ' % comb) + compound(c)
+        if SPELL is None:
+            out += (' ' if comb == ' ' else ' %s ' % comb) + compound(c)
+        else:
+            out += (rws() if comb == ' ' else ows() + comb + ows()) + compound(c)
     return out
 
 
 def selector_list(lst):
-    return ', '.join(complex_(c) for c in lst)
+    if SPELL is None:
+        return ', '.join(complex_(c) for c in lst)
+    return ows() + (ows() + ',' + ows()).join(complex_(c) for c in lst) + ows()
